@@ -80,18 +80,21 @@ def cases_1d():
         # slices
         for a in range(-2, n + 4):
             for b in range(-2, n + 4):
-                for s in (None, 1, 2):
+                for s in (None, 1, 2, -1, -2):
                     el = rng_elems(a, s or 1, b)
                     if not el:
                         expect, cls = "either", "empty-range"
                     elif all(1 <= e <= n for e in el):
-                        expect, cls = "ok", "in-range"
+                        # downward ranges (negative step): generation may refuse them (today it does), but when it
+                        # accepts one the elements must be Modelica's
+                        expect, cls = ("ok" if (s or 1) > 0 else "ok-or-refused"), "in-range"
                     else:
                         expect = "reject"
                         cls = "lower-below-1" if min(el) < 1 else "upper-above-n"
                     ae = num(a) if a >= 0 else ("neg", num(-a))
                     be = num(b) if b >= 0 else ("neg", num(-b))
-                    sl = ("idx", "x", [("slice", ae, None if s is None else num(s), be)])
+                    se = None if s is None else num(s) if s > 0 else ("neg", num(-s))
+                    sl = ("idx", "x", [("slice", ae, se, be)])
                     for ctx_name in ("sum-slice", "array-eq", "array-eq-lhs"):
                         if s == 1 and ctx_name != "sum-slice":
                             continue
@@ -108,7 +111,7 @@ def cases_1d():
                             else:
                                 m["eqs"].append(("eq", sl, ("bin", "*", num(2), var("z"))))
                         yield ({"n": n, "a": a, "s": s, "b": b, "ctx": ctx_name, "kind": "slice"}, m, expect,
-                               "slice:" + cls + (":stepped" if s == 2 else ""))
+                               "slice:" + cls + (":stepped" if s == 2 else ":downward" if (s or 1) < 0 else ""))
         # loop ranges reaching outside
         for a in range(-1, n + 2):
             for b in range(a, n + 3):
@@ -226,6 +229,25 @@ def cases_2d():
                     lim = n2 if order == "loop-first" else n1
                     yield ({"shape": [n1, n2], "c": c, "ctx": "for-2d-" + order, "kind": "loop2d"}, m, "ok" if inr else "reject",
                            "loop2d:%s:%s" % (order, "in-range" if inr else "below-1" if c < 1 else "above-n"))
+            # loop ranges and index arithmetic reaching outside, loop variable in either position
+            for order in ("loop-first", "loop-second"):
+                lim = n1 if order == "loop-first" else n2
+                other = rng_other = 1
+                for a in range(-1, 3):
+                    for b in range(max(a, 1), lim + 2):
+                        for d in (0, -1, 1):
+                            if d and a != 1:
+                                continue
+                            el = [e + d for e in rng_elems(a, 1, b)]
+                            inr = all(1 <= e <= lim for e in el)
+                            ae = num(a) if a >= 0 else ("neg", num(-a))
+                            ie = var("i") if d == 0 else ("bin", "+" if d > 0 else "-", var("i"), num(abs(d)))
+                            ref = idx("A", ie, num(other)) if order == "loop-first" else idx("A", num(other), ie)
+                            m = {"name": "M", "vars": base_vars(0, (n1, n2)) + [vdecl("w", [b + 2])], "eqs": [], "ieqs": [], "funcs": []}
+                            m["eqs"].append(("for", "i", ae, None, num(b), [("eq", idx("w", ("bin", "+", var("i"), num(2))), ("bin", "*", num(2), ref))]))
+                            yield ({"shape": [n1, n2], "a": a, "b": b, "d": d, "ctx": "for-2d-range-" + order, "kind": "loop2d"}, m,
+                                   "ok" if inr else "reject",
+                                   "loop2d-range:%s:%s" % (order, "in-range" if inr else "below-1" if min(el) < 1 else "above-n"))
             # row/column slices
             for r in range(0, n1 + 2):
                 for a in range(-1, n2 + 3):
@@ -287,6 +309,9 @@ def run_case(ctx, desc, m, expect, cls, rng):
         # a legitimately empty range is not out of range; what an empty selection then means for
         # the surrounding equation is not this property's business
         ctx.cover("empty-range:rejected" if err is not None else "empty-range:accepted")
+        return
+    if err is not None and expect == "ok-or-refused":
+        ctx.cover("downward-range:refused")
         return
     if err is not None:
         ctx.violation("C23:%s:%s:in-range-rejected:%s" % (desc["ctx"], cls, exc_sig(err)),
